@@ -7,10 +7,11 @@ use crate::Cfg;
 pub fn run(cfg: &Cfg, rep: &mut Report) {
     rep.rule = "S: documents from the construct grammar (gen::grammar_doc), significant-alphabet text in paragraphs/headings/tables/quotes/lists/fences/footnotes (cmrt::sig_doc), the palette and corpus slices x option vectors of the claimed class (GFM extensions + footnotes in all combinations, width 0 or 1..120, ol_width 0..8, list_style, prefer_fenced, hardbreaks, smart, front matter, ...): cm(parse(cm(parse x))) == cm(parse x) byte for byte; failures are shrunk (lines, characters, options) and classified by the syntactic class of the shrunk input".into();
     if std::env::var("CMRT_NOK").is_err() {
+        cmrt::run_k_outc(rep);
         cmrt::run_k_helpers(rep, cfg.seed ^ 0xC17 ^ 0x48);
         cmrt::run_k(rep, cfg.seed ^ 0xC17 ^ 0x4B, if cfg.tier_thorough { 60_000 } else { 6_000 });
     }
-    let n = std::env::var("CMRT_N").ok().and_then(|v| v.parse().ok()).unwrap_or(if cfg.tier_thorough { 120_000 } else { 12_000 });
+    let n = std::env::var("CMRT_N").ok().and_then(|v| v.parse().ok()).unwrap_or(if cfg.tier_thorough { 40_000 } else { 12_000 });
     let cases = cmrt::gen_cases(cfg.seed ^ 0xC17, n);
     for c in cases.iter().take(3) {
         rep.sample(format!("doc {:?} opts [{}]", crate::util::show(c.md.as_bytes()), c.o.describe()));
